@@ -19,7 +19,7 @@ func init() {
 
 const mergeHeader = `From Coq Require Import String List ZArith.
 Import ListNotations.
-From GW Require Import Base.Res Gql.Schema Gw.Merge Gw.MergeCheck Proofs.MergeBasics Proofs.MergeProofs.
+From GW Require Import Base.Res Gql.Schema Gw.Merge Gw.MergeCheck Proofs.MergeBasics Proofs.MergeProofs Proofs.MergeOrder Proofs.MergePossible.
 Local Open Scope string_scope.
 `
 
@@ -143,7 +143,7 @@ func runMerge(cfg *runCfg, prop string, injectPct int, oracle string) error {
 			if lerr != nil {
 				doc.Dist["generator:invalid-sdl"]++
 				if doc.Dist["generator:invalid-sdl"] < 4 {
-					doc.Notes = append(doc.Notes, "invalid generated SDL ("+mc.Mutation+"): "+lerr.Error())
+					doc.Notes = append(doc.Notes, "invalid generated SDL ("+mc.Mutation+mc.Variation+"): "+lerr.Error())
 				}
 				bad = true
 				break
@@ -219,11 +219,16 @@ func runMerge(cfg *runCfg, prop string, injectPct int, oracle string) error {
 		c.Printf("Definition sources%d := [%s].\nDefinition obs%d := [%s].\n", id, strings.Join(srcTerms, ";\n "), id, strings.Join(obsTerms, ";\n "))
 		or := strings.NewReplacer("sources", fmt.Sprintf("sources%d", id), "obs", fmt.Sprintf("obs%d", id), "internal", c.Schema(internal), "s🎉", c.S("🎉")).Replace(oracle)
 		// the model must predict every observation, and the generated sources must meet the theorems' hypothesis
-		c.Printf("Eval vm_compute in (%d%%nat, andb (forallb wf_defb (flat_map s_types (map snd sources%d))) (model_agrees %s sources%d %s obs%d), %s).\n", id, id, c.S("🎉"), id, c.Schema(internal), id, or)
+		// (sources_wfb, types_wfb: the executable hypotheses of the order theorems of C10, on the services and the gateway's own schema)
+		c.Printf("Eval vm_compute in (%d%%nat, andb (andb (sources_wfb (map snd sources%d ++ [%s])) (types_wfb (map snd sources%d ++ [%s]))) (model_agrees %s sources%d %s obs%d), %s).\n",
+			id, id, c.Schema(internal), id, c.Schema(internal), c.S("🎉"), id, c.Schema(internal), id, or)
 		tag := "compatible"
 		if mc.Mutation != "" {
 			tag = "injected"
 			doc.Dist["injected:"+strings.SplitN(mc.Mutation, ": ", 2)[1]]++
+		}
+		if mc.Variation != "" {
+			doc.Dist["variation:"+strings.SplitN(mc.Variation, ": ", 2)[1]]++
 		}
 		for k := range classes {
 			doc.Dist["class:"+k]++
@@ -300,6 +305,16 @@ func mergeCorpus() []*mergeCase {
 		mk("corpus: repeated directive on a field, one application differs", q+rep+"type T { x: Int @tag(name: \"f\") @tag(name: \"g\") }", q+rep+"type T { x: Int @tag(name: \"f\") @tag(name: \"f\") }",
 			q+rep+"type T { x: Int @tag(name: \"g\") @tag(name: \"f\") }"),
 		mk("corpus: directive repeatable in one service only", q+rep+"type T @tag(name: \"a\") { x: Int }", q+"directive @tag(name: String) on OBJECT | FIELD_DEFINITION\ntype T @tag(name: \"a\") { x: Int }"),
+		// the order of the services decided (DESIGN 6.5): the interfaces an interface implements, the directives applied to an interface, an enum, a union
+		mk("", "interface Entity { id: ID! }\ninterface Node implements Entity { id: ID! }\ntype User implements Node & Entity { id: ID! name: String }\ntype Query { user: User }",
+			"interface Node { id: ID! }\ntype Photo implements Node { id: ID! url: String }\ntype Query { photo: Photo }"),
+		mk("corpus: directive applied to an interface in one service only", q+"directive @tag(name: String) on INTERFACE | ENUM | UNION\ninterface I @tag(name: \"a\") { a: String }\ntype T implements I { a: String }",
+			q+"interface I { a: String }\ntype U implements I { a: String }"),
+		mk("corpus: directive applied to an enum with another argument", q+"directive @tag(name: String) on INTERFACE | ENUM | UNION\nenum E @tag(name: \"a\") { A B }",
+			q+"directive @tag(name: String) on INTERFACE | ENUM | UNION\nenum E @tag(name: \"b\") { A B }"),
+		mk("corpus: directive applied to a union in one service only", q+"directive @tag(name: String) on INTERFACE | ENUM | UNION\ntype P { a: String }\ntype R { a: String }\nunion M @tag(name: \"a\") = P | R",
+			q+"type P { a: String }\ntype R { a: String }\nunion M = P | R"),
+		mk("corpus: directive applied to an argument in one service only", q+"directive @tag(name: String) on ARGUMENT_DEFINITION\ntype T { f(a: Int @tag(name: \"a\")): String }", q+"type T { f(a: Int): String }"),
 		mk("corpus: union different member (same count)", q+"type P { a: String }\ntype R { a: String }\nunion M = P | R", q+"type P { a: String }\ntype S { a: String }\nunion M = P | S"),
 	}
 }
